@@ -275,6 +275,21 @@ class Frame:
     def abs(self):
         return self._map(abs)
 
+    def fillna(self, value):
+        return self._map(lambda a: value if _is_nan(a) or a is None else a)
+
+    def sort_index(self, axis=0, inplace=False, **kw):
+        if kw:
+            raise Unsupported("sort_index options")
+        if axis in (1, "columns"):
+            keys = sorted(self.cols, key=repr)
+            new = {k: self.cols[k] for k in keys}
+            if inplace:
+                self.cols = new
+                return None
+            return Frame(new, self.index)
+        raise Unsupported("sort_index along the index")
+
     def max(self, axis=0):
         if axis not in (1, "columns"):
             raise Unsupported("frame.max along the index")
